@@ -324,6 +324,73 @@ func init() {
 		return e
 	}
 
+	// C17: one caller buffer, two records. The buffer holds text a and is parsed; the caller refills it
+	// with text b (often of the same length) and parses again; then the caller scrubs the buffer and
+	// parses b as a string. String and bytes must agree on b; unmarshalling b into a receiver that
+	// holds the value of a must leave it alone when b is refused.
+	ops["twin2"] = func(e Ev) Ev {
+		a, b := fromB(e["a"]), fromB(e["b"])
+		rule := num(e["rule"])
+		pkg := str(e["pkg"])
+		parseB := func(x []byte) (any, error) {
+			switch pkg {
+			case "date":
+				return date.DefaultParser(x, date.Rule(rule))
+			case "roman":
+				return roman.DefaultParser(x, roman.Rule(rule))
+			case "sem":
+				return sem.DefaultParser(x, sem.Rule(rule))
+			case "size":
+				return size.DefaultParser(x, size.Rule(rule))
+			}
+			return uu.DefaultParser(x, uu.Rule(rule))
+		}
+		parseS := func(x string) (any, error) {
+			switch pkg {
+			case "date":
+				return date.DefaultParser(x, date.Rule(rule))
+			case "roman":
+				return roman.DefaultParser(x, roman.Rule(rule))
+			case "sem":
+				return sem.DefaultParser(x, sem.Rule(rule))
+			case "size":
+				return size.DefaultParser(x, size.Rule(rule))
+			}
+			return uu.DefaultParser(x, uu.Rule(rule))
+		}
+		var vb, vs any
+		var eb, es error
+		mb := ""
+		e["panic"] = try(func() {
+			buf := reused(a)
+			_, _ = parseB(buf)
+			buf = reused(b) // the same backing array, refilled
+			vb, eb = parseB(buf)
+			if eb != nil {
+				mb = eb.Error() // the message as it reads when the call returns
+			}
+			for i := range buf {
+				buf[i] = '#'
+			}
+			vs, es = parseS(string(b))
+		})
+		msg := func(err error) string {
+			if err == nil {
+				return ""
+			}
+			return err.Error()
+		}
+		enc := func(v any) any {
+			if v == nil {
+				return 0
+			}
+			return encVal(pkg, v)
+		}
+		e["oks"], e["vals"], e["eqmsg"] = []int{b2i(es == nil), b2i(eb == nil)}, []any{enc(vs), enc(vb)}, msg(es) == mb
+		e["inmod"], e["scribbleok"] = false, true
+		return e
+	}
+
 	// C18: comparators and Valid on arbitrary bytes
 	ops["sem.cmpraw"] = func(e Ev) Ev {
 		a, b := fromB(e["a"]), fromB(e["b"])
